@@ -260,9 +260,39 @@ package sfnt
 //@   requires bij(s)
 //@   ensures bij(s) && len(s.glyphs) >= old(len(s.glyphs))
 //@   modifies s.*, s.newGid[*], allelems(glyph.ID)
-//@ assume func (s *subsetter) SubsetGpos(old *gtab.Info) (res *gtab.Info)
+// SubsetGpos: every lookup keeps its place in the list; for a pair adjustment
+// subtable the pairs of retained glyphs are stored under their NEW glyph
+// numbers with the same adjustment (exit assertion of the pair loop; defect
+// F33 found here: they were stored under the old numbers).  The unimplemented
+// subtable types panic and single adjustments are dropped as nil subtables:
+// open known findings.
+//@ func (s *subsetter) SubsetGpos(old *gtab.Info) (res *gtab.Info)   props: C10
+//@   requires s != nil && s.newGid != nil
+//@   requires old != nil ==> forall i int :: 0 <= i && i < len(old.LookupList) ==> old.LookupList[i] != nil
+//@   any x0 uint16, y0 uint16
+//@   ensures old == nil ==> res == nil
+//@   ensures old != nil ==> res != nil && fresh(res) && len(res.LookupList) == len(old.LookupList)
+//@   ensures old != nil ==> forall i int :: 0 <= i && i < len(old.LookupList) ==> res.LookupList[i] != nil && len(res.LookupList[i].Subtables) == len(old.LookupList[i].Subtables) && res.LookupList[i].Meta == old.LookupList[i].Meta
+//@   ensures old != nil ==> forall i int :: forall j int :: 0 <= i && i < len(res.LookupList) && 0 <= j && j < len(res.LookupList[i].Subtables) ==> res.LookupList[i].Subtables[j] != nil
 //@   modifies nothing
-//@ assume func (s *subsetter) SubsetGdef(old *gdef.Table) (res *gdef.Table)
+//@   loop 0
+//@     invariant fresh(res.LookupList) && len(res.LookupList) == len(old.LookupList) && old != nil && s.newGid != nil
+//@     invariant forall i2 int :: 0 <= i2 && i2 < iter ==> res.LookupList[i2] != nil && allocated(res.LookupList[i2]) && len(res.LookupList[i2].Subtables) == len(old.LookupList[i2].Subtables) && res.LookupList[i2].Meta == old.LookupList[i2].Meta
+//@   loop 1
+//@     invariant fresh(res.LookupList) && len(res.LookupList) == len(old.LookupList) && old != nil && s.newGid != nil
+//@     invariant forall i2 int :: 0 <= i2 && i2 < i ==> res.LookupList[i2] != nil && allocated(res.LookupList[i2]) && len(res.LookupList[i2].Subtables) == len(old.LookupList[i2].Subtables) && res.LookupList[i2].Meta == old.LookupList[i2].Meta
+//@     invariant tNew != nil && fresh(tNew) && fresh(tNew.Subtables) && len(tNew.Subtables) == len(tOld.Subtables) && tNew.Meta == tOld.Meta && 0 <= i && i < len(old.LookupList) && tOld == old.LookupList[i] && ref(tNew.Subtables) != ref(res.LookupList)
+//@     invariant forall i2 int :: 0 <= i2 && i2 < i ==> res.LookupList[i2] != tNew
+//@   loop 2
+//@     invariant fresh(res.LookupList) && len(res.LookupList) == len(old.LookupList) && old != nil && s.newGid != nil
+//@     invariant forall i2 int :: 0 <= i2 && i2 < i ==> res.LookupList[i2] != nil && allocated(res.LookupList[i2]) && len(res.LookupList[i2].Subtables) == len(old.LookupList[i2].Subtables) && res.LookupList[i2].Meta == old.LookupList[i2].Meta
+//@     invariant tNew != nil && fresh(tNew) && fresh(tNew.Subtables) && len(tNew.Subtables) == len(tOld.Subtables) && tNew.Meta == tOld.Meta && 0 <= i && i < len(old.LookupList) && tOld == old.LookupList[i] && ref(tNew.Subtables) != ref(res.LookupList)
+//@     invariant forall i2 int :: 0 <= i2 && i2 < i ==> res.LookupList[i2] != tNew
+//@     invariant 0 <= j && j < len(tOld.Subtables) && sNew != nil && fresh(sNew) && sNew != sOld
+//@     invariant seen(sOld, glyph.Pair{x0, y0}) && has(s.newGid, x0) && has(s.newGid, y0) ==> has(sNew, glyph.Pair{s.newGid[x0], s.newGid[y0]})
+//@     exit_assert has(sOld, glyph.Pair{x0, y0}) && has(s.newGid, x0) && has(s.newGid, y0) ==> has(sNew, glyph.Pair{s.newGid[x0], s.newGid[y0]})
+//@ func (s *subsetter) SubsetGdef(old *gdef.Table) (res *gdef.Table)   props: C10
+//@   ensures old == nil ==> res == nil
 //@   modifies nothing
 //@ func (f *Font) Clone() (res *Font)   props: C10 C16
 //@   requires f != nil
